@@ -101,6 +101,8 @@ def run(ctx):
                 if s == 1.0 and n <= (4 if ctx.quick() else 5):
                     if tie: ctx.cov['discarded'] += 1
                     else: hterms.append(f'({n}%nat, {dmat(fl(An))}, {dmat(fl(P))}, {dmat(fl(H))})')
+    _A = qx.to_np(qx.rand_int(rng, 4, 4, -3, 3))
+    cm.layout_sweep(ctx, qx, 'C09', 'hessenbergize', lambda X: hes.hessenbergize(X), _A, {'n': 4})
     # the structure predicate and the clean-up on matrices with entries around the tolerance (exact comparison)
     NC = 60 if ctx.quick() else 600
     for t in range(NC):
